@@ -86,7 +86,9 @@ def extract_facts(repo, config="all", force=False):
             shutil.rmtree(out)
         # prune old cache entries (keep disk small)
         olds = sorted(glob.glob(os.path.join(CACHE, "facts-*")), key=os.path.getmtime)
-        for o in olds[:-6]:
+        # (entries are ~30 MB; a reader holds no lock once it has the directory, so keep enough of them that checks of
+        # several trees / configurations running side by side do not prune each other's facts)
+        for o in olds[:-24]:
             shutil.rmtree(o, ignore_errors=True)
         tmp = out + ".tmp"
         if os.path.exists(tmp):
